@@ -3,10 +3,10 @@ PROPERTY = 'C24'
 LEVEL = 'model_checking'
 CLAIM = ('wip')
 MODES = {'chunk': 0, 'post': 1, 'improve': 2, 'scratch': 3, 'fix': 4}
-def e(mode, n): return ('%s_n%d' % (mode, n), '%d, %d' % (MODES[mode], n))
+def e(mode, n, real=0): return ('%s_n%d%s' % (mode, n, '_real' if real else ''), '%d, %d, %d' % (MODES[mode], n, real))
 quick = [e('chunk', 2), e('chunk', 3), e('post', 2), e('post', 3), e('improve', 2), e('scratch', 2)]
 HARNESSES = [
-    H('lin', 'lin.cpp', 'h_lin', link=['util/feefrac.cpp'], entries=quick, defines={'ABORT_ON_FAILED_ASSUME': 1, 'VERIF_TALLOC_MAX': 4, 'VERIF_LL2C_INLINE_GEP': 1, 'VERIF_MUL128_NARROW': 1, 'FB': 4, 'SB': 2},
-      unwind=5, unwindset='verif_cttz.0:10,verif_ctpop.0:10,verif_ctlz.0:10', memunwind=40, timeout=300, objbits=10,
+    H('lin', 'lin.cpp', 'h_lin', link=['util/feefrac.cpp'], entries=quick, defines={'ABORT_ON_FAILED_ASSUME': 1, 'VERIF_TALLOC_MAX': 8, 'VERIF_LL2C_INLINE_GEP': 1, 'VERIF_MUL128_NARROW': 12, 'FB': 4, 'SB': 2},
+      unwind=5, unwindset='verif_cttz.0:10,verif_ctpop.0:10,verif_ctlz.0:10', memunwind=200, timeout=300, objbits=10, diff_runs=12,
       functions=['cluster_linearize.h'], stubs=['rng'], bounds='wip'),
 ]
